@@ -1073,6 +1073,7 @@ func wsCutRun(t *testing.T, c *C13Case, how string) *simrt.Result {
 		relay := mocrelay.NewRelay(h, relayOpt(opt))
 		mux := &mocrelay.ServeMux{Relay: relay}
 		sim.Drive()
+		env.snapshotRouters()
 		base := census()
 		srvCtx, srvCancel := context.WithCancel(context.Background())
 		sim.Cleanup(srvCancel)
@@ -1159,8 +1160,8 @@ func wsCutRun(t *testing.T, c *C13Case, how string) *simrt.Result {
 			}
 		}
 		for i, r := range env.routers {
-			if conns, subs := r.VerifRegistry(); conns != 0 || subs != 0 {
-				sim.Violate("C13", "router-registry-leak", map[string]string{"how": how}, "router #%d still holds %d connection(s) with %d subscription(s) after the WebSocket session ended", i, conns, subs)
+			if n := simrt.MapEntries(r); n != env.routerBase[i] {
+				sim.Violate("C13", "router-registry-leak", map[string]string{"how": how}, "router #%d holds %d registry entries after the WebSocket session ended, %d before it started", i, n, env.routerBase[i])
 			}
 		}
 		for i, reg := range env.regs {
